@@ -5,8 +5,9 @@ package c16
 // the same oracle as the handlers lane. Differences:
 //   - reorg notices are not made up by the harness: the harness changes the duty dependent roots of the chain and feeds
 //     head events to the real HandleHeadEvent, which decides what it tells the handlers;
-//   - index-change notices go through the scheduler's IndicesChg channel and fan-out (their delivery to the individual
-//     handlers is asynchronous; the oracle does not depend on notices at all, only on what the beacon node answered);
+//   - index-change notices go through the scheduler's IndicesChg channel and fan-out; the harness waits until the three
+//     duty handlers have logged "indices change received" (the index fan-out has no barrier of its own), so the notice
+//     is a synchronous event here too (the oracle does not depend on notices anyway, only on what the beacon node answered);
 //   - quiescence = (*Scheduler).VerifBarrier, release of the attester / sync-committee executions = VerifReleaseSlot
 //     (hooks/scheduler_verif.go.txt): the lane exists only in trees that have them;
 //   - the synchronous dispatch (a handler calling Scheduler.ExecuteDuties) is observed through the "late duty execution"
@@ -60,6 +61,7 @@ type schedCtl struct {
 	execs       map[dispKey]int
 	nRec, nExec int64
 	nReorgSeen  int64 // reorg events HandleHeadEvent announced in its log
+	nIdxSeen    int64 // "indices change received" lines of the attester / proposer / sync-committee handlers
 	sig         chan struct{}
 	byPub       map[string]phase0.ValidatorIndex
 	byRole      map[string]spectypes.BeaconRole
@@ -81,6 +83,15 @@ func (c *dispCore) With(f []zapcore.Field) zapcore.Core {
 func (c *dispCore) Check(e zapcore.Entry, ce *zapcore.CheckedEntry) *zapcore.CheckedEntry {
 	if strings.Contains(e.Message, "late duty execution") {
 		return ce.AddCore(e, c)
+	}
+	if strings.Contains(e.Message, "indices change received") { // a duty handler took an index-change notice from the fan-out
+		c.rn.w.mu.Lock()
+		c.rn.sched.nIdxSeen++
+		c.rn.w.mu.Unlock()
+		select {
+		case c.rn.sched.sig <- struct{}{}:
+		default:
+		}
 	}
 	if strings.Contains(e.Message, "dependent root has changed") { // HandleHeadEvent is about to send a reorg event
 		c.rn.w.mu.Lock()
@@ -260,6 +271,9 @@ func (rn *run) schedIndexNotice() {
 	}
 	sc.pIdx--
 	rn.begin(evWorld, 0, rn.net.now.Load(), false, "INDEX-NOTICE on the scheduler's IndicesChg channel")
+	rn.w.mu.Lock()
+	seenBefore := sc.nIdxSeen
+	rn.w.mu.Unlock()
 	if !sendIdx(sc.idxCh) {
 		rn.w.mu.Lock()
 		rn.dead = true
@@ -267,6 +281,28 @@ func (rn *run) schedIndexNotice() {
 		rn.c.Inconclusive("scheduler: index-change notice not accepted by the fan-out")
 		return
 	}
+	// The index fan-out delivers to the handlers from its own goroutine and has no barrier. Each of the three duty handlers
+	// logs "indices change received" when it takes the notice: wait for all three (then the reorg barrier proves they
+	// finished processing it), so that the notice is a synchronous, replayable event like everything else in this lane.
+	t := time.NewTimer(watchdog)
+	for {
+		rn.w.mu.Lock()
+		got := sc.nIdxSeen - seenBefore
+		rn.w.mu.Unlock()
+		if got >= 3 {
+			break
+		}
+		select {
+		case <-sc.sig:
+		case <-t.C:
+			rn.w.mu.Lock()
+			rn.dead = true
+			rn.w.mu.Unlock()
+			rn.c.Inconclusive(fmt.Sprintf("scheduler: only %d of 3 handlers logged 'indices change received' within %v (did the log line change?)", got, watchdog))
+			return
+		}
+	}
+	t.Stop()
 	if !rn.schedBarrier() {
 		return
 	}
